@@ -659,6 +659,10 @@ func c29CompareExact(tree *c29Node, expr, in string, want c29Out, res *promql.Re
 	return nil
 }
 
+// c29SameVal: equal floats; +0 and -0 are the same value (min / max may return either of
+// two tied zeros), all NaNs are the same.
+func c29SameVal(a, b float64) bool { return a == b || (math.IsNaN(a) && math.IsNaN(b)) }
+
 // c29CheckFree checks a topk / bottomk / limitk result: per bucket the documented number
 // of elements, all elements strictly ahead of the k-th, the rest among the ones tied with
 // it; values and labels are those of the input elements; for an instant query the
@@ -674,7 +678,7 @@ func c29CheckFree(root *c29Node, f *c29Free, got map[string]promql.Sample, order
 			if !ok {
 				return fail("element {%s} = %v must be selected (bucket of %d, %d ahead of the k-th value)", k, m.F, b.Count, len(b.Must))
 			}
-			if (m.H == nil) != (s.H == nil) || (m.H == nil && !c27SameFloat(math.Float64bits(s.F), math.Float64bits(m.F))) {
+			if (m.H == nil) != (s.H == nil) || (m.H == nil && !c29SameVal(s.F, m.F)) {
 				return fail("element {%s}: value %v, input value %v", k, s.F, m.F)
 			}
 			used[k] = true
@@ -684,7 +688,7 @@ func c29CheckFree(root *c29Node, f *c29Free, got map[string]promql.Sample, order
 		for _, m := range b.May {
 			k := c29Key(m.L)
 			if s, ok := got[k]; ok {
-				if (m.H == nil) != (s.H == nil) || (m.H == nil && !c27SameFloat(math.Float64bits(s.F), math.Float64bits(m.F))) {
+				if (m.H == nil) != (s.H == nil) || (m.H == nil && !c29SameVal(s.F, m.F)) {
 					return fail("element {%s}: value %v, input value %v", k, s.F, m.F)
 				}
 				used[k] = true
